@@ -622,4 +622,114 @@ theorem readFrame_fuel (mode : Mode) (datalen : Nat) : ∀ (f g : Nat) (st : St)
         · simp only [List.length_drop]; omega
         · simp only [List.length_drop]; omega
 
+/-! ### the states the event loop leaves behind are `RdOk` -/
+
+theorem readData_up (mode : Mode) (st : St) (av data : Bytes) (datalen : Nat) :
+    (readData mode st av data datalen).2.1.up = st.up := by
+  unfold readData
+  by_cases h : st.dataSize > datalen
+  · rw [if_pos h]
+  · rw [if_neg h]; simp only; split <;> rfl
+
+theorem readFrame_up (mode : Mode) (datalen : Nat) : ∀ (fuel : Nat) (st : St) (av : Bytes),
+    (readFrame mode datalen fuel st av).2.1.up = st.up := by
+  intro fuel
+  induction fuel with
+  | zero => intro st av; rfl
+  | succ f ih =>
+    intro st av
+    apply readFrame_cases mode datalen f st av (fun r => r.2.1.up = st.up)
+    · intro _; exact readData_up ..
+    · intro _ _; rfl
+    · intro b0 b1 r' _ _
+      apply afterHdrD_cases mode datalen f _ b0 b1 r' _ (fun r => r.2.1.up = st.up)
+      · intro _ _; rfl
+      · intro _; rfl
+      · intro _ _; rfl
+      · intro _ _ _; rfl
+      · intro _ _ _; rw [ih]; rfl
+      · intro _ _ _; rfl
+      · intro _ _ _ _; rfl
+      · intro _ _ _ _; rw [readData_up]; rfl
+      · intro _ _ _ _ _; rfl
+      · intro _ _ _ _; rw [readData_up]; rfl
+
+/-- a frame-phase reader state the event loop can leave behind -/
+def UpOk (st : St) : Prop := st.up = true ∧ RdOk rxBuf st
+
+theorem wsRead_upok (mode : Mode) (accept : Bytes) (st : St) (av : Bytes) (h : UpOk st) :
+    UpOk (wsRead mode accept rxBuf st av).2.1 := by
+  unfold wsRead
+  simp only [h.1, Bool.not_true, Bool.false_eq_true, if_false]
+  exact ⟨by rw [readFrame_up]; exact h.1, (readFrame_ok mode rxBuf _ st av h.2).1⟩
+
+theorem readSession_upok (mode : Mode) (accept : Bytes) : ∀ (fuel : Nat) (st : St) (av : Bytes), UpOk st →
+    ∀ st', (readSession mode accept fuel st av).2.1 = .open st' → UpOk st' := by
+  intro fuel
+  induction fuel with
+  | zero => intro st av h st' e; simp only [readSession, Sess.open.injEq] at e; exact e ▸ h
+  | succ f ih =>
+    intro st av h st' e
+    have hw := wsRead_upok mode accept st av h
+    rw [readSession] at e
+    generalize wsRead mode accept rxBuf st av = r at hw e
+    obtain ⟨ret, st1, av1⟩ := r
+    cases ret with
+    | err => simp at e
+    | closed => simp at e
+    | oob => simp at e
+    | zero => simp only [Sess.open.injEq] at e; exact e ▸ hw
+    | pkt pl =>
+      simp only at e
+      split at e
+      · exact ih st1 av1 hw st' e
+      · simp only [Sess.open.injEq] at e; exact e ▸ hw
+
+theorem feedChunk_upok (mode : Mode) (accept : Bytes) : ∀ (fuel idle : Nat) (st : St) (av : Bytes), UpOk st →
+    ∀ st', (feedChunk mode accept fuel idle st av).2.1 = .open st' → UpOk st' := by
+  intro fuel
+  induction fuel with
+  | zero => intro idle st av h st' e; simp only [feedChunk, Sess.open.injEq] at e; exact e ▸ h
+  | succ f ih =>
+    intro idle st av h st' e
+    rw [feedChunk] at e
+    by_cases h0 : av.length = 0
+    · simp only [if_pos h0, Sess.open.injEq] at e; exact e ▸ h
+    · simp only [if_neg h0] at e
+      have hs := readSession_upok mode accept (av.length + fsCap + 2) st av h
+      generalize readSession mode accept (av.length + fsCap + 2) st av = r at hs e
+      obtain ⟨ms, sess, av1⟩ := r
+      cases sess with
+      | closed => simp at e
+      | oob => simp at e
+      | «open» st1 =>
+        have h1 := hs st1 rfl
+        simp only at e
+        split at e
+        · split at e
+          · simp only [Sess.open.injEq] at e; exact e ▸ h1
+          · exact ih _ st1 av1 h1 st' e
+        · exact ih _ st1 av1 h1 st' e
+
+/-- every reader state the event loop leaves behind in the frame phase is `RdOk` (for `coap_read_session`'s 1472-byte
+buffer, hence for `coap_ws_close`'s 100 bytes) -/
+theorem feed_upok (mode : Mode) (accept : Bytes) : ∀ (chunks : List Bytes) (st : St), UpOk st →
+    ∀ st', (feed mode accept st chunks).2.1 = .open st' → UpOk st' := by
+  intro chunks
+  induction chunks with
+  | nil => intro st h st' e; simp only [feed, Sess.open.injEq] at e; exact e ▸ h
+  | cons c cs ih =>
+    intro st h st' e
+    rw [feed] at e
+    have hc := feedChunk_upok mode accept (6 * (c.length + 1)) 0 st c h
+    generalize feedChunk mode accept (6 * (c.length + 1)) 0 st c = r at hc e
+    obtain ⟨ms, sess, stuck⟩ := r
+    cases sess with
+    | closed => simp at e
+    | oob => simp at e
+    | «open» st1 =>
+      cases stuck with
+      | true => simp only [Sess.open.injEq] at e; exact e ▸ hc st1 rfl
+      | false => exact ih st1 (hc st1 rfl) st' e
+
 end Coap
